@@ -49,6 +49,15 @@ pipe_reap(void *arg)
 {
 	nni_pipe *p = arg;
 
+	if (nni_atomic_get_bool(&p->p_starting)) {
+		// nni_pipe_start is still running for this pipe (callbacks, the
+		// protocol's pipe_start, statistics).  Tear-down must not
+		// overtake start-up: come back when it has finished.
+		nni_msleep(1);
+		nni_reap(&pipe_reap_list, p);
+		return;
+	}
+
 	NNI_VERIF_DELAY(9, p);
 	p->p_proto_ops.pipe_close(p->p_proto_data);
 
@@ -279,6 +288,7 @@ pipe_create(nni_pipe **pp, nni_sock *sock, nni_sp_tran *tran, nni_dialer *d,
 	nni_refcnt_init(&p->p_refcnt, 2, p, pipe_destroy);
 
 	nni_atomic_init_bool(&p->p_closed);
+	nni_atomic_init_bool(&p->p_starting);
 	nni_atomic_flag_reset(&p->p_stop);
 	NNI_LIST_NODE_INIT(&p->p_sock_node);
 	NNI_LIST_NODE_INIT(&p->p_ep_node);
